@@ -279,6 +279,15 @@ def run(ctx):
                     cli_subset(ctx, dec, b, dict(origin='corpus', file=name), scratch, 'f%d' % i)
                 except Exception as e:
                     ctx.count('cli_harness_skip')
+        k = 0
+        for nsub in (3, 4, 5):
+            for name, msg in cases.same_layout_cases(rng, nsub=nsub):
+                k += 1
+                if not ctx.mine(k):
+                    continue
+                ctx.count('same_layout_cases')
+                check_pairs(ctx, dec, enc, msg.bytes, [s.meta for s in msg.subsets],
+                            dict(origin='shape', shape=name, ids=msg.ids, nsub=nsub, compressed=False, hex=msg.bytes.hex()), 'shape')
         q = 0
         while q < QUOTA[ctx.tier] and ctx.more():
             q += 1
